@@ -94,6 +94,12 @@ def havoc(I, node, fr, lc):
             elif o.kind in ("list", "dict"):
                 if (lc or {}).get("unroll") is None:
                     raise Unsupported("loop mutates a concrete %s; needs unrolling or a symbolic container" % o.kind)
+    for g in (lc or {}).get("havoc_ghosts", []):
+        ty = I.E.ghost_types.get(g)
+        if g not in st.ghost:
+            st.ghost[g] = I.fresh_of_type(ty, "ghost." + g)
+            st.ghost_init[g] = st.ghost[g]
+        st.ghost[g] = I.fresh_of_type(ty, "ghost.%s!loop" % g)
     # fields modified through callee contracts inside the loop
     for fld in (lc or {}).get("havoc_fields", []):
         base = I.eval(ast.parse(fld.rsplit(".", 1)[0], mode="eval").body, fr)
